@@ -66,5 +66,5 @@ class LevyLiborModel(LevyDrivenSDEModel):
                     for k in range(pos - 1)
                 ]
             )
-            aux = 1 + self.x0[pos - 1] * (t - self.tenors[pos - 1])
+            aux *= 1 + self.x0[pos - 1] * (t - self.tenors[pos - 1])
         return 1 / aux
